@@ -1,7 +1,7 @@
 INIT InitPair
 NEXT NextPair
-CONSTANTS Block = 2  HeaderCells = 16  Zero = 0  Emit = FALSE
+CONSTANTS Block = 2  HeaderCells = 16  Zero = 0  Emit = TRUE
 CONSTANT Conts <- Conts3
 CONSTANT EmptyHead <- MCEmptyHead
-INVARIANT CreateLaw
+INVARIANT EmitPair
 CHECK_DEADLOCK FALSE
